@@ -120,7 +120,7 @@ class Report:
             return 0
         n = 0
         for i in self.instances:
-            if i.rule in old_rules and i.verdict == UNDECIDED:
+            if i.rule in old_rules and i.verdict == UNDECIDED and not (i.detail or {}).get("contradicted_structural_finding"):
                 i.verdict = ASSUMED
                 i.message = (i.message + " -- " if i.message else "") + f"idiom not recognised; the clause ({what}) is decided on the explicit small games by {new_rule}, which holds on all {len(new)} instances"
                 self.floors.pop(i.rule, None)
@@ -146,6 +146,7 @@ class Report:
         for i in self.instances:
             if i.rule in old_rules and i.verdict == VIOLATED and (pred is None or pred(i)):
                 i.verdict = UNDECIDED
+                i.detail = dict(i.detail or {}, contradicted_structural_finding=True)
                 i.message = (f"[structural finding contradicted on the explicit small games: the clause ({what}) is decided by {new_rule}, which holds on all {len(new)} instances; "
                              f"undecided beyond them] " + i.message)
                 n += 1
